@@ -1,1 +1,253 @@
-From EpyV Require Import Model.Kernel.
+(* C07 - compartmented models keep a partition and follow their transition diagram.
+   Statements only; proofs in Proofs/CompartRun.v (runs as sequences of calls), CompartSort.v,
+   CompartInv.v (the run invariant), CompartDiagram.v, CompartModels.v.
+
+   Everything is for every table [cm : cmodel] with [wf_model cm = true], every network
+   (graph_okb: edges join nodes of the network), every initial assignment (init_ok: it gives every
+   node a compartment of the model), every oracle, every fuel, both schedulers, with or without a
+   Monitor.  Vocabulary (Proofs/CompartRun.v): [Steps tb s0 cs s] - s is reached from s0 by
+   scheduler-internal moves and calls of event functions; cs lists the calls (oldest first), each
+   with the state it was entered on; [call_ok] is what holds at the instant of a call (for a
+   stochastic / per-element event [CEv x t e]: x is a registered event, e is in the kernel's copy
+   of its locus right now, t is the clock); [after tb c s] is the state the call leaves behind.
+   C07_runs_* : every run of either scheduler is such a sequence, so "for all Steps from
+   set-up" covers set-up, every call and the final state of every run.
+
+   NOT in the Coq model (covered by the direct oracle D of harness/c07.py only): the SIvR vaccine
+   gate and SIR_VariableInfection.  The claim is named accordingly (tools/claims.d/C07.json). *)
+From Coq Require Import List ZArith QArith Bool Arith.
+From EpyV Require Import Model.Kernel Model.Loci Model.Compart
+  Proofs.KernelMember Proofs.LociBase Proofs.LociLocus Proofs.LociInv
+  Proofs.CompartRun Proofs.CompartSort Proofs.CompartInv Proofs.CompartDiagram Proofs.CompartModels.
+Import ListNotations.
+
+(* ---------------------------------------------------------------- runs are sequences of calls *)
+Theorem C07_runs_stoch : forall cm nodes edges init maxtime monitor pf fuel rs ls ds,
+  let tb := mk_table cm nodes edges init maxtime monitor in
+  exists cs, Steps tb (setup_state tb rs ls ds) cs (r_final (stoch_run tb pf fuel rs ls ds)).
+Proof. intros. exact (stoch_run_steps _ pf fuel rs ls ds). Qed.
+
+Theorem C07_runs_sync : forall cm nodes edges init maxtime monitor pf fuel rs ds,
+  let tb := mk_table cm nodes edges init maxtime monitor in
+  exists cs, Steps tb (setup_state tb rs [] ds) cs (r_final (sync_run tb pf fuel rs ds)).
+Proof. intros. exact (sync_run_steps _ pf fuel rs ds). Qed.
+
+(* every recorded call satisfied call_ok on the state it was entered on, which was itself reached *)
+Theorem C07_calls_ok : forall W (tb : table W) s0 cs s sc, Steps tb s0 cs s -> In sc cs ->
+  call_ok tb (snd sc) (fst sc) /\ exists cs1 cs2, cs = cs1 ++ sc :: cs2 /\ Steps tb s0 cs1 (fst sc).
+Proof. intros W tb s0 cs s sc H Hin. exact (Steps_calls tb s0 cs s H sc Hin). Qed.
+
+(* ---------------------------------------------------------------- the run invariant (a), (b), (c) *)
+(* J cm nodes edges s: (a) the kernel's ordered loci are map ksort of the loci of the model;
+   (b) those satisfy the C01 invariant WInv for cm_specs cm; (c) node and edge lists are the
+   network's and every node has a compartment of cm_comps cm.  It holds after set-up, at the final
+   state and on the state every call of the run was entered on. *)
+Theorem C07_invariant : forall cm nodes edges init maxtime monitor rs ls ds cs s,
+  let tb := mk_table cm nodes edges init maxtime monitor in
+  wf_model cm = true -> graph_okb nodes edges = true -> init_ok cm nodes init = true ->
+  Steps tb (setup_state tb rs ls ds) cs s ->
+  J cm nodes edges s /\ Forall (fun sc => J cm nodes edges (fst sc)) cs.
+Proof.
+  intros cm nodes edges init maxtime monitor rs ls ds cs s tb Hwf Hg Hi H.
+  exact (J_steps cm nodes edges init maxtime monitor rs ls ds cs s (wf_model_loci cm Hwf) Hg Hi H).
+Qed.
+
+(* what J says, unfolded *)
+Theorem C07_invariant_meaning : forall cm nodes edges (s : st cworld), J cm nodes edges s ->
+  let st := cw_st (world s) in
+  loci s = map ksort (st_loci st) /\ WInv (cm_specs cm) st /\ st_nodes st = nodes /\ st_edges st = edges
+  /\ (forall v, In v nodes -> exists c, getc st v = Some c /\ In c (cm_comps cm))
+  /\ (single_orientation (cm_specs cm) = true -> Inv (cm_specs cm) st).
+Proof.
+  intros cm nodes edges s H. destruct H as (H1 & H2 & H3 & H4 & H5). cbv zeta.
+  repeat (split; [assumption|]). intros Hs. apply WInv_Inv; assumption.
+Qed.
+
+(* ---------------------------------------------------------------- C07_partition *)
+(* at every such point every node has exactly one compartment (getc is a function), one of the
+   model's; the sizes results() reports (count_in) are the true counts, over the duplicate-free
+   list of the model's compartments they sum to the number of nodes *)
+Theorem C07_partition : forall cm nodes edges init maxtime monitor rs ls ds cs s,
+  let tb := mk_table cm nodes edges init maxtime monitor in
+  wf_model cm = true -> graph_okb nodes edges = true -> init_ok cm nodes init = true ->
+  Steps tb (setup_state tb rs ls ds) cs s ->
+  let st := cw_st (world s) in
+  st_nodes st = nodes /\ st_edges st = edges
+  /\ (forall v, In v nodes -> exists c, getc st v = Some c /\ In c (cm_comps cm))
+  /\ NoDup (cm_comps cm)
+  /\ lsum (map (count_in st) (cm_comps cm)) = length nodes.
+Proof.
+  intros cm nodes edges init maxtime monitor rs ls ds cs s tb Hwf Hg Hi H.
+  exact (partition cm nodes edges s (proj1 (C07_invariant cm nodes edges init maxtime monitor rs ls ds cs s Hwf Hg Hi H))).
+Qed.
+
+Theorem C07_count_is_true_count : forall s c,
+  count_in s c = length (filter (fun v => match getc s v with Some x => Z.eqb x c | None => false end) (st_nodes s)).
+Proof. reflexivity. Qed.
+
+(* ---------------------------------------------------------------- C07_diagram *)
+(* every compartment change made by an event function entered from the scheduler (a stochastic or
+   per-element event) is an arrow l -> c of the diagram; no other node changes.  (Posted event
+   functions: see C07_fixed_recovery_partial below.) *)
+Theorem C07_diagram : forall cm nodes edges init maxtime monitor rs ls ds cs s s1 x t e,
+  let tb := mk_table cm nodes edges init maxtime monitor in
+  wf_model cm = true -> graph_okb nodes edges = true -> init_ok cm nodes init = true ->
+  Steps tb (setup_state tb rs ls ds) cs s -> In (s1, CEv x t e) cs ->
+  forall v, getc (cw_st (world (after tb (CEv x t e) s1))) v <> getc (cw_st (world s1)) v ->
+  exists l c, getc (cw_st (world s1)) v = Some l /\ getc (cw_st (world (after tb (CEv x t e) s1))) v = Some c
+    /\ In (l, c) (diagram cm).
+Proof.
+  intros cm nodes edges init maxtime monitor rs ls ds cs s s1 x t e tb Hwf Hg Hi H Hin.
+  destruct (C07_invariant cm nodes edges init maxtime monitor rs ls ds cs s Hwf Hg Hi H) as [_ Hall].
+  exact (call_diagram cm nodes edges init maxtime monitor s1 x t e Hwf
+           (proj1 (Forall_forall _ _) Hall _ Hin) (proj1 (Steps_calls tb _ _ _ H _ Hin))).
+Qed.
+
+(* the diagrams of the shipped tables (codes: sorted names) *)
+Example C07_diagrams : forall p q r u,
+  diagram (sir_cm p q) = [(3, 1); (1, 2)]%Z                      (* S>I>R *)
+  /\ diagram (sis_cm p q) = [(1, 2); (2, 1)]%Z                   (* I>S, S>I *)
+  /\ diagram (sirs_cm p q r) = [(3, 1); (1, 2); (2, 3)]%Z        (* S>I>R>S *)
+  /\ diagram (seir_cm p q r u) = [(4, 1); (1, 2); (2, 3)]%Z      (* S>E>I>R *)
+  /\ diagram (opinion_cm p q) = [(1, 2); (2, 3)]%Z               (* G>P>T *)
+  /\ diagram (sir_fr_cm p q) = [(3, 1); (1, 2)]%Z                (* S>I, posted I>R *)
+  /\ diagram (sis_fr_cm p q) = [(2, 1); (1, 2)]%Z.               (* S>I, posted I>S *)
+Proof. intros. repeat split; vm_compute; reflexivity. Qed.
+
+Example C07_compartments : forall p q r u,
+  cm_comps (sir_cm p q) = [3; 1; 2]%Z /\ cm_comps (sis_cm p q) = [2; 1]%Z /\ cm_comps (sirs_cm p q r) = [1; 2; 3]%Z
+  /\ cm_comps (seir_cm p q r u) = [4; 1; 2; 3]%Z /\ cm_comps (opinion_cm p q) = [1; 2; 3]%Z
+  /\ cm_comps (sir_fr_cm p q) = [3; 1; 2]%Z /\ cm_comps (sis_fr_cm p q) = [1; 2]%Z.
+Proof. intros. repeat split; vm_compute; reflexivity. Qed.
+
+(* ---------------------------------------------------------------- C07_through_infectious_edge *)
+(* at the call of an edge event function (infect, affect, stifle) the element (n, m) is an edge of
+   the network, n is in the left compartment of the locus and m in (one of) its right
+   compartment(s), on the state the call is entered on *)
+Theorem C07_through_infectious_edge : forall cm nodes edges init maxtime monitor rs ls ds cs s s1 t e j cev c mark post,
+  let tb := mk_table cm nodes edges init maxtime monitor in
+  wf_model cm = true -> graph_okb nodes edges = true -> init_ok cm nodes init = true ->
+  Steps tb (setup_state tb rs ls ds) cs s -> In (s1, CEv (mpi monitor, j, mk_ev j cev) t e) cs ->
+  nth_error (cm_events cm) j = Some cev -> ce_kind cev = HLeft c mark post ->
+  let sp := nth (ce_locus cev) (cm_specs cm) default_spec in
+  exists n m, e = EE n m /\ (In (n, m) edges \/ In (m, n) edges)
+    /\ getc (cw_st (world s1)) n = Some (locus_left sp) /\ right_ok sp (cw_st (world s1)) m.
+Proof.
+  intros cm nodes edges init maxtime monitor rs ls ds cs s s1 t e j cev c mark post tb Hwf Hg Hi H Hin En Ek.
+  destruct (C07_invariant cm nodes edges init maxtime monitor rs ls ds cs s Hwf Hg Hi H) as [_ Hall].
+  exact (through_infectious_edge cm nodes edges init maxtime monitor s1 _ t e Hwf
+           (proj1 (Forall_forall _ _) Hall _ Hin) (proj1 (Steps_calls tb _ _ _ H _ Hin)) j cev c mark post eq_refl En Ek).
+Qed.
+
+(* every stochastic call of a run is on event j of the model, for some j *)
+Theorem C07_event_of_call : forall cm nodes edges init maxtime monitor pi j ev,
+  In (pi, j, ev) (all_events (mk_table cm nodes edges init maxtime monitor)) <->
+  pi = mpi monitor /\ exists cev, nth_error (cm_events cm) j = Some cev /\ ev = mk_ev j cev.
+Proof. intros. apply all_events_mk. Qed.
+
+(* ---------------------------------------------------------------- C07_fixed_recovery *)
+(* FULL STATEMENT (not proved): in a fixed-recovery table a node leaves the infected compartment
+   exactly T after entering it, and only then.
+   PROVED: the infection event function entered at time t on (n, m) posts, with T >= 0, a fresh
+   live one-shot entry for node n with the (node) removal program k due at Qred (t + T), and
+   records OPosted id (t + T); by C04 (Properties/C04.v: C04_posted_fate_stoch/_sync,
+   C04_never_twice, C04_handler_args) an entry so recorded is fired exactly once, at its time,
+   unless the run ends first - no shipped event function un-posts.  What is missing for the full
+   statement is the queue invariant "a pending removal for n <-> n is infected", i.e. that the
+   posted removal finds n still in I; C07_diagram therefore covers the scheduler-drawn events and
+   the posted I -> R / I -> S arrows of [diagram] are justified by the co-executed runs only. *)
+Theorem C07_fixed_recovery_partial : forall cm nodes edges init maxtime monitor rs ls ds cs s s1 t e j cev c mark T k n m,
+  let tb := mk_table cm nodes edges init maxtime monitor in
+  wf_model cm = true -> graph_okb nodes edges = true -> init_ok cm nodes init = true ->
+  Steps tb (setup_state tb rs ls ds) cs s -> In (s1, CEv (mpi monitor, j, mk_ev j cev) t e) cs ->
+  nth_error (cm_events cm) j = Some cev -> ce_kind cev = HLeft c mark (Some (T, k)) -> e = EE n m ->
+  let s' := after tb (CEv (mpi monitor, j, mk_ev j cev) t e) s1 in
+  let y := {| e_time := Qred (t + T); e_id := nextid s1; e_live := true; e_proc := mpi monitor;
+              e_elem := EN n; e_prog := k; e_rep := None |} in
+  (0 <= T)%Q /\ posted_node_prog cm k = true /\ queue s' = y :: queue s1 /\ nextid s' = S (nextid s1)
+  /\ exists l, out s' = OTap t (mpi monitor) (NEv (mpi monitor) j) e :: OPosted (nextid s1) (Qred (t + T)) :: l ++ out s1.
+Proof.
+  intros cm nodes edges init maxtime monitor rs ls ds cs s s1 t e j cev c mark T k n m tb Hwf Hg Hi H Hin En Ek Ee.
+  destruct (C07_invariant cm nodes edges init maxtime monitor rs ls ds cs s Hwf Hg Hi H) as [_ Hall].
+  exact (fixed_recovery_posts cm nodes edges init maxtime monitor s1 _ t e Hwf
+           (proj1 (Forall_forall _ _) Hall _ Hin) (proj1 (Steps_calls tb _ _ _ H _ Hin)) j cev c mark T k n m eq_refl En Ek Ee).
+Qed.
+
+(* ---------------------------------------------------------------- C07_quiescent *)
+(* the Gillespie loop leaves through the branch a = 0 with nothing pending ... *)
+Theorem C07_quiescent_exit : forall cm nodes edges init maxtime monitor pf f t ev (s : st cworld),
+  let tb := mk_table cm nodes edges init maxtime monitor in
+  at_equil tb t s = false -> Qeq_bool (sum_rates s (transitions tb)) 0 = true -> head (queue (discard s)) = None ->
+  stoch_loop tb pf (S f) t ev s = (t, ev, discard s) /\ world (discard s) = world s /\ loci (discard s) = loci s.
+Proof.
+  intros cm nodes edges init maxtime monitor pf f t ev s tb H1 H2 H3.
+  split; [exact (stoch_loop_quiescent_exit cm nodes edges init maxtime monitor pf f t ev s H1 H2 H3) | split; reflexivity].
+Qed.
+
+(* ... and then, the probabilities being >= 0, nothing qualifies for any per-element event of
+   positive probability: its locus is empty and, by the invariant, so is the set it tracks *)
+Theorem C07_quiescent : forall cm nodes edges init maxtime monitor rs ls ds cs s,
+  let tb := mk_table cm nodes edges init maxtime monitor in
+  wf_model cm = true -> graph_okb nodes edges = true -> init_ok cm nodes init = true ->
+  Steps tb (setup_state tb rs ls ds) cs s ->
+  (forall ev, In ev (cm_events cm) -> (0 <= ce_p ev)%Q) ->
+  Qeq_bool (sum_rates s (transitions tb)) 0 = true ->
+  forall cev, In cev (cm_events cm) -> ce_elem cev = true -> (0 < ce_p cev)%Q ->
+  let sp := nth (ce_locus cev) (cm_specs cm) default_spec in
+  let st := cw_st (world s) in
+  truth sp st = []
+  /\ (forall l r, sp = EdgeLocus l r -> forall a b, In (a, b) edges \/ In (b, a) edges ->
+        ~ (getc st a = Some l /\ getc st b = Some r))                          (* no S-I edge when p_infect > 0 *)
+  /\ (forall c, sp = NodeLocus c -> forall v, In v nodes -> getc st v <> Some c). (* no I node when p_remove > 0 *)
+Proof.
+  intros cm nodes edges init maxtime monitor rs ls ds cs s tb Hwf Hg Hi H Hnn Hz cev Hin Hel Hp. cbv zeta.
+  pose proof (proj1 (C07_invariant cm nodes edges init maxtime monitor rs ls ds cs s Hwf Hg Hi H)) as Hj.
+  split; [|split].
+  - destruct (truth _ _) as [|x l] eqn:E; [reflexivity|]. exfalso.
+    apply (quiescent cm nodes edges init maxtime monitor s Hwf Hj Hnn Hz cev Hin Hel Hp x). apply truth_In. rewrite E. left. reflexivity.
+  - intros l r Hsp. exact (quiescent_no_edge cm nodes edges init maxtime monitor s Hwf Hj Hnn Hz cev l r Hin Hel Hp Hsp).
+  - intros c Hsp. exact (quiescent_no_node cm nodes edges init maxtime monitor s Hwf Hj Hnn Hz cev c Hin Hel Hp Hsp).
+Qed.
+
+(* ---------------------------------------------------------------- the shipped tables are well formed *)
+Example C07_wf_tables : forall p q r u,
+  wf_model (sir_cm p q) = true /\ wf_model (sis_cm p q) = true /\ wf_model (sirs_cm p q r) = true
+  /\ wf_model (seir_cm p q r u) = true /\ wf_model (opinion_cm p q) = true.
+Proof. intros. repeat split; vm_compute; reflexivity. Qed.
+
+Example C07_wf_fixed_recovery : forall p T, Qle_bool 0 T = true ->
+  wf_model (sir_fr_cm p T) = true /\ wf_model (sis_fr_cm p T) = true.
+Proof. intros p T H. unfold wf_model, sir_fr_cm, sis_fr_cm. cbn. rewrite H. split; reflexivity. Qed.
+
+Example C07_tables_orientation : forall p q r u,
+  single_orientation (cm_specs (sir_cm p q)) = true /\ single_orientation (cm_specs (seir_cm p q r u)) = true
+  /\ single_orientation (cm_specs (opinion_cm p q)) = false.
+Proof. intros. repeat split; vm_compute; reflexivity. Qed.
+
+(* ---------------------------------------------------------------- non-vacuity *)
+(* SIR (pInfect 1/2, pRemove 1/4) on the path 0 - 1 - 2 with node 0 infected: a Gillespie run to
+   quiescence and a synchronous run, by vm_compute through mk_table; the hypotheses of the
+   theorems hold, the final state is all-removed, both ends are reached through an I neighbour *)
+Open Scope Q_scope.
+Definition ex_cm : cmodel := sir_cm (1 # 2) (1 # 4).
+Definition ex_tb : table cworld := mk_table ex_cm [0; 1; 2]%Z [(0, 1); (1, 2)]%Z [(0, 1); (1, 3); (2, 3)]%Z 10 None.
+
+Example C07_example_stoch :
+  let r := stoch_run ex_tb 50 50 [1#2; 1#4; 1#2; 1#4; 1#2; 3#4; 1#2; 1#2; 1#2; 1#2; 1#2; 1#2; 1#2]
+                     [1; 1; 1; 1; 1; 1; 1; 1] [0; 0; 0; 0; 0; 0; 0]%nat in
+  wf_model ex_cm = true /\ graph_okb [0; 1; 2]%Z [(0, 1); (1, 2)]%Z = true
+  /\ init_ok ex_cm [0; 1; 2]%Z [(0, 1); (1, 3); (2, 3)]%Z = true
+  /\ r_stuck r = false /\ r_events r = 5%nat /\ r_time r = 29 # 3
+  /\ handlers_of_ex (r_out r) = [(0%nat, 4 # 3, EE 1 0); (0%nat, 7 # 3, EE 2 1); (1%nat, 11 # 3, EN 0); (1%nat, 17 # 3, EN 1); (1%nat, 29 # 3, EN 2)]
+  /\ map (getc (cw_st (world (r_final r)))) [0; 1; 2]%Z = [Some 2; Some 2; Some 2]%Z
+  /\ map (count_in (cw_st (world (r_final r)))) (cm_comps ex_cm) = [0; 0; 3]%nat
+  /\ loci (r_final r) = [[]; []]
+  /\ Qeq_bool (sum_rates (r_final r) (transitions ex_tb)) 0 = true.
+Proof. cbv zeta. repeat split; vm_compute; reflexivity. Qed.
+
+Example C07_example_sync :
+  let r := sync_run ex_tb 50 50 [1#4; 3#4; 1#4; 3#4; 3#4; 1#8; 1#8; 1#8] [] in
+  r_stuck r = false /\ r_events r = 5%nat /\ r_time r = 10
+  /\ handlers_of_ex (r_out r) = [(0%nat, 1, EE 1 0); (0%nat, 2, EE 2 1); (1%nat, 3, EN 0); (1%nat, 3, EN 1); (1%nat, 3, EN 2)]
+  /\ map (getc (cw_st (world (r_final r)))) [0; 1; 2]%Z = [Some 2; Some 2; Some 2]%Z.
+Proof. cbv zeta. repeat split; vm_compute; reflexivity. Qed.
